@@ -111,6 +111,16 @@ register("C11",
     "Trusted: clang AST/CFG; engine/microai; offsetBoundingBox abstracted to a symbolic box.",
     "guarded-by entailment, who-writes, CFG pairing rules, symbolic affine evaluation of pin positions, finite direction table",
     "DESIGN.md §5 C11")
+register("C08",
+    "Decides the generation side of overlap avoidance: addShape (interpreted) records every same-group non-exempt pair exactly once and "
+    "stores half extents in (x, y) order; generateSeparationConstraints (symbolic rectangles, sampled leaves) emits a constraint for a pair "
+    "iff the rectangles overlap in the other dimension, ordered by centre, with gap = sum of the half extents of that dimension, creator "
+    "recorded; all libcola addShape call sites pass width/2, height/2 of the same rectangle and cover all indices; the non-overlap object is "
+    "appended to extraConstraints whenever requested and a containment constraint is created for every non-root cluster. Does not decide "
+    "that the constraints remove all overlap for all inputs nor the cluster containment numerics.",
+    "Trusted: engine/microai incl. its std::list/map/set model; cluster-bounded shapes are not interpreted (plain shapes only).",
+    "abstract interpretation (object-level) of the constraint generator + guarded-by / loop-coverage rules",
+    "DESIGN.md §5 C08")
 for _p, _r in {
  "C06": "equality of route costs between an incrementally edited router and a fresh one quantifies over run-time visibility-graph contents after arbitrary edit histories; no rule over code shape is a necessary condition of it",
  "C12": "tree-ness and terminal preservation of hyperedges are invariants of dynamically rewritten run-time graphs; not visible in code shape",
